@@ -88,6 +88,7 @@ struct HashWorld : World {
         // so they must also hash alike (they did not: repaired, see known_findings.json)
         bool case_pairs = bin && nocase && r.chance(0.25);
         cfg.set("case_pairs", case_pairs);
+        cfg.set("alias", bin && r.chance(0.2));
         // ---- key pool
         std::vector<std::string> pool;
         auto add = [&](const std::string &k) {
@@ -271,6 +272,8 @@ struct HashWorld : World {
             op.set("op", names[k]);
             if (k <= 3)
                 op.set("k", (long long)r.below(pool.size()));
+            if (k == 1 && r.chance(0.25))
+                op.set("same_value", true);
             if (k <= 1)
                 op.set("v", nextval++);
             if (k == 6)
@@ -302,8 +305,25 @@ struct HashWorld : World {
         hash_table_t *h = hash_table_new(size, nocase ? HASH_CASE_NO : HASH_CASE_YES);
         std::map<std::string, Live> model;
         bool chain_delete = false, lookup_after = false;
+        // alias mode (binary tables): keys that are prefixes of one another are handed over as one buffer with different
+        // lengths (n-gram histories over one array), so that distinct keys start at the same address
+        const bool alias = bin && cfg.getb("alias");
+        std::map<std::string, char *> arena;
         auto mk = [&](const std::string &k) { // exact-size copy
             char *c;
+            if (alias) {
+                std::string fam = k;
+                for (auto &q : pool)
+                    if (q.size() > fam.size() && q.compare(0, k.size(), k) == 0 && (q.size() > fam.size() || q < fam))
+                        fam = q;
+                auto f = arena.find(fam);
+                if (f == arena.end()) {
+                    char *buf = (char *)malloc(fam.size() ? fam.size() : 1);
+                    memcpy(buf, fam.data(), fam.size());
+                    f = arena.emplace(fam, buf).first;
+                }
+                return f->second;
+            }
             if (bin) {
                 c = (char *)malloc(k.size() ? k.size() : 1);
                 memcpy(c, k.data(), k.size());
@@ -314,18 +334,23 @@ struct HashWorld : World {
             }
             return c;
         };
-        auto release = [&](void *p) { free(p); };
+        auto release = [&](void *p) {
+            if (!alias) // (arena buffers live as long as the run)
+                free(p);
+        };
         auto bad = [&](int opi, const char *inv, const std::string &msg) {
             out.violate(std::string("C20.") + inv, "mismatch", case_pairs ? std::string(inv) + ":binary_case_pair" : std::string(inv), msg, opi);
         };
         // locate the live entry of a model key in the public table: (bucket, position in chain, chain length)
+        const bool alias_mode = bin && cfg.getb("alias");
+        size_t copy_len = 0; // (alias mode: the length that goes with the buffer handed to locate)
         auto locate = [&](const char *copy, int &pos, int &len) {
             for (int b = 0; b < h->size; ++b) {
                 if (!h->table[b].key)
                     continue;
                 int n = 0, at = -1;
                 for (hash_entry_t *e = &h->table[b]; e; e = e->next, ++n)
-                    if (e->key == copy)
+                    if (e->key == copy && (!alias_mode || e->len == copy_len))
                         at = n;
                 if (at >= 0) {
                     pos = at;
@@ -336,13 +361,13 @@ struct HashWorld : World {
             return false;
         };
         auto check_entries = [&](int opi, std::vector<hash_entry_t *> &ents, const char *what) {
-            std::set<const char *> seen;
+            std::set<std::pair<const char *, size_t>> seen; // (an entry is its key buffer AND length: aliased keys share buffers)
             for (hash_entry_t *e : ents) {
                 bool found = false;
                 for (auto &kv : model)
-                    if (kv.second.copy == e->key) {
+                    if (kv.second.copy == e->key && kv.second.raw.size() == e->len) {
                         found = true;
-                        if (!seen.insert(e->key).second)
+                        if (!seen.insert(std::make_pair((const char *)e->key, (size_t)e->len)).second)
                             bad(opi, what, "entry visited twice");
                         if ((int64_t)(size_t)e->val != kv.second.val)
                             bad(opi, what, "entry value differs from the model");
@@ -370,8 +395,14 @@ struct HashWorld : World {
                 int64_t v = op.geti("v", 1);
                 if (v <= 0)
                     v = 1;
-                char *c = mk(raw);
                 bool rep = o == "replace";
+                // a replace that stores the value already held still swaps in the caller's key buffer (the documented use:
+                // enter with a short-lived key, replace with a long-lived one); the old buffer is released below
+                if (rep && op.getb("same_value") && it != model.end()) {
+                    v = it->second.val;
+                    out.probes["hash.replace_same_value"]++;
+                }
+                char *c = mk(raw);
                 int64_t ret;
                 if (bin) {
                     if (i32)
@@ -403,6 +434,7 @@ struct HashWorld : World {
                 out.trace.i64(it == model.end() ? 0 : 1);
             } else if (o == "delete") {
                 int pos = 0, len = 0;
+                copy_len = it != model.end() ? it->second.raw.size() : 0;
                 if (it != model.end() && locate(it->second.copy, pos, len)) {
                     if (len >= 2)
                         chain_delete = true;
